@@ -79,10 +79,10 @@ def _pick(options):
 
 def _sized(elem, lo, hi):
     """List whose length is drawn first (uniformly), so that short lists do not dominate small shards."""
-    return _pick(range(lo, hi + 1)).flatmap(lambda n: st.lists(elem, min_size=n, max_size=n))
+    return st.tuples(_pick(range(lo, hi + 1)), st.lists(elem, min_size=hi, max_size=hi)).map(lambda t: t[1][: t[0]])
 
 
-_BOOL = _pick([False, True])
+_BOOL = _pick([True, False])  # (the first option is drawn ~1.5x as often: Hypothesis likes the integer 0)
 
 
 def _shape(dim, lo=2, hi=12):
@@ -93,11 +93,17 @@ _ORIGIN_COORD = st.one_of(st.floats(-10.0, 10.0), st.sampled_from([0.0, -1.5, 10
 
 
 @st.composite
-def _axes(draw, dim, kinds=("diag+", "diag+-", "skew", "skew+-")):
+def _axes(draw, dim, kinds=("skew+-", "diag+-", "skew", "diag+")):
+    # every kind consumes the same draws: Hypothesis favours examples that need fewer choices (measured: 52 % 'diag+'
+    # when the off-diagonal entries were drawn only for the skewed kinds)
     kind = draw(_pick(kinds))
     d = [draw(st.floats(0.05, 2.0)) for _ in range(dim)]
+    sg = [draw(_pick([1.0, -1.0])) for _ in range(dim)]
+    off = [[draw(st.floats(0.02, 0.3)) * draw(_pick([1.0, -1.0])) for _ in range(dim)] for _ in range(dim)]
     if kind.endswith("+-"):
-        d = [v * draw(st.sampled_from([1.0, -1.0])) for v in d]
+        d = [v * s_ for v, s_ in zip(d, sg)]
+        if all(v > 0 for v in d):
+            d[draw(_pick(range(dim)))] *= -1.0
     a = [[0.0] * dim for _ in range(dim)]
     m = min(abs(v) for v in d)
     for i in range(dim):
@@ -106,8 +112,7 @@ def _axes(draw, dim, kinds=("diag+", "diag+-", "skew", "skew+-")):
         for i in range(dim):
             for j in range(dim):
                 if i != j:
-                    # rows stay strictly diagonally dominant -> never singular
-                    a[i][j] = draw(st.floats(0.02, 0.3)) * draw(st.sampled_from([1.0, -1.0])) * m
+                    a[i][j] = off[i][j] * m  # rows stay strictly diagonally dominant -> never singular
     return {"kind": kind, "a": a}
 
 
